@@ -530,3 +530,101 @@ impl PvCase {
         }
     }
 }
+
+
+// ---------------------------------------------------------------------------
+// Live-server variant: the same tables behind a real `HttpServer` with the
+// header version policy; one echo handler reports which endpoint ran and the
+// variables it was given.
+
+async fn echo_handler(
+    rqctx: dropshot::RequestContext<()>,
+) -> Result<hyper::Response<dropshot::Body>, HttpError> {
+    let body = format!(
+        "ok:{}:{}",
+        rqctx.endpoint.operation_id.trim_start_matches("op"),
+        enc_vars(&rqctx.endpoint.variables)
+    );
+    Ok(hyper::Response::builder().status(200).body(body.into()).unwrap())
+}
+
+pub fn live_endpoint(e: &Ep) -> Option<ApiEndpoint<()>> {
+    let r = e.range.real()?;
+    let method = http::Method::from_bytes(e.method.as_bytes()).ok()?;
+    let mut ep = ApiEndpoint::new(e.op(), echo_handler, method, "application/json", &e.path, r);
+    ep.visible = e.visible;
+    let mut kinds = std::collections::BTreeMap::new();
+    for (name, wild) in template_vars(&e.path) {
+        if !name.is_empty() {
+            kinds.insert(name, wild);
+        }
+    }
+    for (name, wild) in kinds {
+        ep.parameters.push(ApiEndpointParameter::new_named(
+            &ApiEndpointParameterLocation::Path,
+            name,
+            None,
+            true,
+            hooks::ApiSchemaGenerator::Static {
+                schema: Box::new(if wild { string_array_schema() } else { string_schema() }),
+                dependencies: indexmap::IndexMap::new(),
+            },
+            vec![],
+        ));
+    }
+    Some(ep)
+}
+
+/// Serve `eps` (must be an accepted table) and answer each request over TCP.
+/// `version` is sent in the `api-version` header when present.
+pub async fn live_lookups(
+    eps: &[Ep],
+    reqs: &[(String, String, Option<Version>)],
+    max_version: &str,
+) -> Option<Vec<String>> {
+    use crate::server::*;
+    let mut api = ApiDescription::<()>::new();
+    for e in eps {
+        api.register(live_endpoint(e)?).ok()?;
+    }
+    let policy = dropshot::VersionPolicy::Dynamic(Box::new(dropshot::ClientSpecifiesVersionInHeader::new(
+        http::HeaderName::from_static("api-version"),
+        Version::parse(max_version).unwrap(),
+    )));
+    let server = start_server(api, (), ServerOpts { version_policy: Some(policy), ..Default::default() });
+    let addr = server.local_addr();
+    let reqs2: Vec<(String, String, Option<Version>)> = reqs.to_vec();
+    let out = tokio::task::spawn_blocking(move || {
+        let mut out = vec![];
+        for (m, p, v) in reqs2.iter() {
+            let vs = v.as_ref().map(|v| v.to_string());
+            let mut hdrs: Vec<(&str, &str)> = vec![];
+            if let Some(vs) = vs.as_ref() {
+                hdrs.push(("api-version", vs.as_str()));
+            }
+            let req = build_request(m, p, &hdrs, b"");
+            let resp = roundtrip(addr, &req, m == "HEAD");
+            out.push(match resp {
+                None => "noresponse".to_string(),
+                Some(r) => match r.status {
+                    200 => String::from_utf8_lossy(&r.body).to_string(),
+                    405 => {
+                        let mut allow: Vec<String> = r
+                            .header_all("allow")
+                            .iter()
+                            .flat_map(|v| v.split(',').map(|s| s.trim().to_string()).collect::<Vec<_>>())
+                            .collect();
+                        allow.sort();
+                        format!("err:405:{}", if allow.is_empty() { "-".to_string() } else { allow.join(",") })
+                    }
+                    c => format!("err:{}", c),
+                },
+            });
+        }
+        out
+    })
+    .await
+    .ok()?;
+    server.close().await.ok()?;
+    Some(out)
+}
